@@ -369,3 +369,34 @@ c01_unary!(c01_t_not_bool, |_a, t| Expr::UnaryOp { op: UnaryOp::Not, expr: arena
 c01_unary!(c01_t_invert_number, |a, _t| Expr::UnaryOp { op: UnaryOp::Invert, expr: arena::bx(num(a)) });
 c01_unary!(c01_t_spread_number, |a, _t| Expr::Spread(arena::bx(num(a))));
 c01_unary!(c01_t_spread_null, |_a, _t| Expr::Spread(arena::bx(Expr::Null)));
+
+// ---- the list built-ins on the empty list ----------------------------------------------------
+macro_rules! c01_empty_args {
+    ($name:ident, $f:expr, |$e:ident, $d:ident| $args:expr) => {
+        kproof!(cut, 6, fn $name() {
+            let $d: f64 = kani::any();
+            kani::assume($d.is_nan() || $d < 4.0 || $d > 1e300);
+            let $e = arena::list_cell(vec![]);
+            let heap = arena::heap();
+            kani::cover!(true, "reach-call");
+            let _ = call_bi($f, $args, &heap);
+            std::mem::forget(heap);
+        });
+    };
+}
+c01_empty_args!(c01_t_len_empty, B::Len, |e, d| av![e]);
+c01_empty_args!(c01_q_head_empty, B::Head, |e, d| av![e]);
+c01_empty_args!(c01_q_tail_empty, B::Tail, |e, d| av![e]);
+c01_empty_args!(c01_t_unique_empty, B::Unique, |e, d| av![e]);
+c01_empty_args!(c01_t_sort_empty, B::Sort, |e, d| av![e]);
+c01_empty_args!(c01_t_reverse_empty, B::Reverse, |e, d| av![e]);
+c01_empty_args!(c01_t_any_empty, B::Any, |e, d| av![e]);
+c01_empty_args!(c01_t_all_empty, B::All, |e, d| av![e]);
+c01_empty_args!(c01_t_flatten_empty, B::Flatten, |e, d| av![e]);
+c01_empty_args!(c01_t_includes_empty, B::Includes, |e, d| av![e, n(d)]);
+c01_empty_args!(c01_t_slice_empty, B::Slice, |e, d| av![e, n(d), n(d)]);
+c01_empty_args!(c01_t_concat_empty, B::Concat, |e, d| av![e, e]);
+c01_empty_args!(c01_t_zip_empty, B::Zip, |e, d| av![e, e]);
+c01_empty_args!(c01_t_dot_empty, B::Dot, |e, d| av![e, e]);
+c01_empty_args!(c01_t_max_empty, B::Max, |e, d| av![e]);
+c01_empty_args!(c01_t_prod_empty, B::Prod, |e, d| av![e]);
